@@ -5,17 +5,27 @@
          Chol _ true      (CholLinearOperator(upper=True): _matmul computes R R^T, the meaning is R^T R)
          Zero (_ :: _)    (ZeroLinearOperator with a batch shape: _matmul drops the operator's batch shape)
        both refuted in Property.v (C01_chol_upper_refuted, C01_zero_batch_refuted).
-   NOT covered (yet): Permutation (code transcribed, inverse-permutation lemma missing); Mul, BatchRepeat and Cat along a
-   batch dimension (their [mm] is the specification, Model.spec_mm). *)
+   NOT covered (yet): Cat along a batch dimension (its [mm] is the specification, Model.spec_mm); Mul over operands whose root is
+   itself a structured operator (the model then uses the root's dense meaning); BatchRepeat over a
+   rectangular base (the branch of _matmul that relies on broadcasting: wrong whenever a batch dimension of size > 1 is
+   really repeated, finding C01-batchrepeat-rect-tiling). *)
 From Coq Require Import List ZArith Bool Arith.
 Import ListNotations.
 Require Import C01.Sums C01.Batch C01.Tensor C01.OpExpr.
 
+(* MulLinearOperator operands whose root is a plain tensor (what opbuild builds): RootLinearOperator / LowRankRoot over a dense
+   root, or a lower Cholesky operator *)
+Definition simple_root (e : OpExpr) : bool :=
+  match e with
+  | Root (Dense _) | LowRankRoot (Dense _) => true
+  | Chol _ u => negb u
+  | _ => false
+  end.
+
 Fixpoint coveredb (e : OpExpr) : bool :=
   match e with
   | Dense _ | UserMinimal _ | Diag _ | ConstantDiag _ _ | Identity _ _ | Toeplitz _ | Triangular _ _ => true
-  | Kernel _ _ _ | TransposePermutation _ => true
-  | Permutation _ => false
+  | Kernel _ _ _ | TransposePermutation _ | Permutation _ => true
   | Zero b _ _ => match b with [] => true | _ :: _ => false end
   | Chol _ u => negb u
   | Root r | LowRankRoot r => coveredb r
@@ -23,7 +33,8 @@ Fixpoint coveredb (e : OpExpr) : bool :=
   | KronAddedDiag a b | SumKron a b | AddedDiag a b | LowRankRootAddedDiag a b | Matmul a b => coveredb a && coveredb b
   | ConstantMul b _ | BlockDiag b | BlockInterleaved b | SumBatch b | Masked b _ _ | Interpolated b _ _ _ _ => coveredb b
   | Cat ops d => match d with CatBatch _ => false | _ => forallb coveredb ops end
-  | Mul _ _ | BatchRepeat _ _ => false
+  | BatchRepeat b _ => coveredb b && Nat.eqb (nr (denote b)) (nc (denote b))   (* the square branch of _matmul *)
+  | Mul l r => simple_root l && simple_root r
   end.
 
 Definition covered (e : OpExpr) : Prop := coveredb e = true.
